@@ -212,6 +212,10 @@ func expand(hist []string, param json.RawMessage) statemc.Result {
 func main() {
 	flag.Parse()
 	par.ServeIfWorker(map[string]par.Handler{"x": statemc.Handler(expand)})
+	if v, ok := ev.ReplayRequested(); ok {
+		statemc.Replay(v, expand)
+		return
+	}
 	r := ev.Start("C04")
 	defer r.RecoverMain()
 	defer world.Cleanup()
